@@ -37,7 +37,7 @@ MANIFEST = dict(
     technique="Lean 4 proofs (mutual structural induction over nested arguments, induction over operation histories, refinement to a "
               "one-pass specification) + differential correspondence check of histories and predicates",
 )
-PROP_FILES = ["HtmlVerif/Props/C14.lean"]
+PROP_FILES = ["HtmlVerif/Props/C14.lean", "HtmlVerif/Props/SrcC14.lean"]
 
 # ------------------------------------------------------------------ argument shapes
 S = lambda s: ("node", ("text", s))  # noqa: E731
@@ -471,9 +471,12 @@ def run(tier: str) -> int:
     impl = core.impl_many(lines)
     for l, im, nt, tg in zip(lines, impl, nontriv, tags):
         ck.add(l, im, nontrivial=nt, tag=tg)
+    ck.add_src(["is_tag_node", "is_tag_child", "util_flatten_recurse", "util_flatten", "tagchilds_to_tagnodes",
+                "TagList_should_not_expand", "TagList_init", "TagList_extend", "TagList_append", "TagList_insert",
+                "TagList_add", "TagList_radd", "TagList_iadd"], quick=250, thorough=2500)
     ck.correspond(holds=True)
     for f in ck.failures:
-        if f.line and not f.py:
+        if f.line and not f.py and f.line.split(" ", 1)[0] != "src":      # (`src` lines are the translator validation's own)
             f.py = snippet(f.line)
     # second oracle: the Python reference flattening, for every history
     n_ref = 0
